@@ -392,7 +392,7 @@ class IPAddr (_AddrBase):
 
   @property
   def is_multicast (self):
-    return ((self.toSigned(networkOrder = False) >> 24) & 0xe0) == 0xe0
+    return ((self.toSigned(networkOrder = False) >> 24) & 0xf0) == 0xe0
 
   @property
   def multicast_ethernet_address (self):
